@@ -217,21 +217,22 @@ def addCov (cov : List String) (tags : List String) : List String :=
 def repairedIds (fx : Fixes) : List Nat :=
   (if fx.readOrder then [1] else []) ++ (if fx.childRenamedIn then [7] else [])
   ++ (if fx.createOverDir then [9] else []) ++ (if fx.fsyncResolve then [10] else [])
-  ++ (if fx.syncRenameBoth then [11] else [])
+  ++ (if fx.syncRenameBoth then [11] else []) ++ (if fx.crashTree then [13] else [])
 
 def fxName (fx : Fixes) : String :=
   "+".intercalate ((if fx.readOrder then ["1"] else []) ++ (if fx.dataKeyResolve then ["3"] else [])
     ++ (if fx.renameKind then ["5"] else [])
     ++ (if fx.childRenamedIn then ["7"] else []) ++ (if fx.createOverDir then ["9"] else [])
-    ++ (if fx.fsyncResolve then ["10"] else []) ++ (if fx.syncRenameBoth then ["11"] else []))
+    ++ (if fx.fsyncResolve then ["10"] else []) ++ (if fx.syncRenameBoth then ["11"] else [])
+    ++ (if fx.crashTree then ["12a"] else []))
 
 /-- all repair-flag combinations, fewest flags first -/
 def allFixes : List Fixes :=
   let bools := [false, true]
   let all : List Fixes := bools.flatMap fun a => bools.flatMap fun b => bools.flatMap fun c =>
-    bools.flatMap fun d => bools.flatMap fun e => bools.flatMap fun f => bools.map fun g =>
+    bools.flatMap fun d => bools.flatMap fun e => bools.flatMap fun f => bools.flatMap fun g => bools.map fun h =>
       { readOrder := a, renameKind := b, childRenamedIn := c, createOverDir := d, syncRenameBoth := e,
-        fsyncResolve := f, dataKeyResolve := g }
+        fsyncResolve := f, dataKeyResolve := g, crashTree := h }
   let cnt (f : Fixes) : Nat := ((fxName f).splitOn "+").length
   (all.filter (· != {})).toArray.qsort (fun x y => cnt x < cnt y) |>.toList
 
@@ -317,8 +318,8 @@ def evalOne (prop : String) (cfg : Cfg) (fx : Fixes) (a : Acc) (line h : Nat) (o
       -- last resort (its second trigger fires on every re-created directory name)
       let ts := if prop == "C07" then
                   let ts := ts.filter (fun t => t.1 != 1 && t.1 != 6)
-                  ts.filter (fun t => t.1 != 12) ++ ts.filter (fun t => t.1 == 12)
-                else ts.filter (fun t => t.1 != 11 && t.1 != 12)
+                  ts.filter (fun t => t.1 != 12 && t.1 != 13) ++ ts.filter (fun t => t.1 == 12 || t.1 == 13)
+                else ts.filter (fun t => t.1 != 11 && t.1 != 12 && t.1 != 13)
       let pat := match explain ts bad with
         | some n => findingId prop n
         | none => "none"
@@ -395,10 +396,11 @@ def parseCfg (c : CaseIn) (toks : List String) : CaseIn := Id.run do
   return c
 
 def parseFx (s : String) : Fixes :=
-  let ids := (s.splitOn "+").map natOf
+  let toks := s.splitOn "+"
+  let ids := toks.map natOf
   { readOrder := ids.contains 1, renameKind := ids.contains 5, childRenamedIn := ids.contains 7,
     createOverDir := ids.contains 9, syncRenameBoth := ids.contains 11, fsyncResolve := ids.contains 10,
-    dataKeyResolve := ids.contains 3 }
+    dataKeyResolve := ids.contains 3, crashTree := toks.contains "12a" }
 
 def noFx : Fixes := {}
 
@@ -415,7 +417,12 @@ def finishCase (prop : String) (memo : IO.Ref (Option Fixes)) (c : CaseIn) : IO 
   -- `fixed:<ids>`.  If only a variant that lacks a committed repair replays, the implementation has
   -- fallen back behind a repair: K stays a mismatch, the variant is reported as `regressed:<ids>`.
   let last ← memo.get
-  let cands : List Fixes := (match last with | some f => [f] | none => []) ++ allFixes ++ [noFx]
+  -- candidates: the variant that matched last, then all others, nearest to the base first
+  let flags (f : Fixes) : List Bool := [f.readOrder, f.renameKind, f.childRenamedIn, f.createOverDir,
+    f.syncRenameBoth, f.fsyncResolve, f.dataKeyResolve, f.crashTree]
+  let dist (f : Fixes) : Nat := ((flags f).zip (flags base)).foldl (fun n ab => if ab.1 != ab.2 then n + 1 else n) 0
+  let cands : List Fixes := (match last with | some f => [f] | none => [])
+    ++ ((allFixes ++ [noFx]).toArray.qsort (fun x y => dist x < dist y)).toList
   let found : Option (Fixes × Verdict) :=
     if v0.kOk then none
     else cands.findSome? fun fx =>
@@ -557,8 +564,8 @@ def enumRun (prop : String) (len : Nat) (full : Bool) : IO Unit := do
             | _ => []
         if !badp.isEmpty then
           ok := false
-          let tse := if prop == "C07" then ts.filter (fun t => t.1 != 12) ++ ts.filter (fun t => t.1 == 12)
-                     else ts.filter (fun t => t.1 != 11 && t.1 != 12)
+          let tse := if prop == "C07" then ts.filter (fun t => t.1 != 12 && t.1 != 13) ++ ts.filter (fun t => t.1 == 12 || t.1 == 13)
+                     else ts.filter (fun t => t.1 != 11 && t.1 != 12 && t.1 != 13)
           pat := match explain tse badp with | some n => findingId prop n | none => "none"
           detail := s!"at op {idx} ({renderOp op}): impl={renderObs mo} spec={renderObs so}"
       st := st1
